@@ -6,6 +6,7 @@ import RichchkModel.Model.Editors
 import RichchkModel.Lemmas.StrGrow
 import RichchkModel.Lemmas.OrderFree
 import RichchkModel.Props.C07
+import RichchkModel.Spec.Consts
 namespace Richchk.Props.C14
 open Richchk
 
@@ -510,5 +511,270 @@ theorem c04_new_location_reference_is_its_slot (b : List RLoc) (ress : List Res)
   simp only
   rw [hctx]
   exact lookup_placed _ _ hu k hk hk' s hp
+
+/-! ### a NEW (index-less) unit-property set: its reference is the slot the save put it on -/
+
+theorem dedupAux_keys_nodup (xs kept : List RCuwp) (hk : (kept.map (·.key)).Nodup) :
+    ((dedupAux (fun a b : RCuwp => a.key == b.key) xs kept).map (·.key)).Nodup := by
+  induction xs generalizing kept with
+  | nil =>
+    simp only [dedupAux, List.map_reverse]
+    exact List.pairwise_reverse.mpr (hk.imp fun h => Ne.symm h)
+  | cons x xs ih =>
+    simp only [dedupAux]
+    split
+    · exact ih kept hk
+    · rename_i hany
+      apply ih
+      rw [List.map_cons]
+      refine List.nodup_cons.mpr ⟨?_, hk⟩
+      intro hmem
+      obtain ⟨t, ht, hkey⟩ := List.mem_map.mp hmem
+      apply hany
+      exact List.any_eq_true.mpr ⟨t, ht, by simp [hkey]⟩
+
+/-- the batch the rebuild collects holds every value at most once (set semantics of `RichCuwpSlot.__eq__`) -/
+theorem dedupBy_keys_nodup (xs : List RCuwp) :
+    ((dedupBy (fun a b : RCuwp => a.key == b.key) xs).map (·.key)).Nodup :=
+  dedupAux_keys_nodup xs [] (by simp)
+
+theorem cuPlacementOf_perm (need : List RCuwp) : (cuPlacementOf need).Perm need := by
+  unfold cuPlacementOf
+  have : (fun c : RCuwp => c.idx.isNone) = fun c => !(c.idx.isSome) := by
+    funext c; cases c.idx <;> rfl
+  rw [this]
+  exact List.filter_append_perm _ _
+
+/-- membership in the placed part of the emitted table: an element is `placement[j]` with the slot the allocator
+handed to request `j` -/
+theorem cu_placed_mem_iff (placement : List RCuwp) (ress : List Res) (y : RCuwp) :
+    y ∈ cuPlacedOf placement ress ↔
+      ∃ (j : Nat) (hj : j < placement.length) (hj' : j < ress.length) (s : Nat),
+        ress[j] = .placed s ∧ y = { placement[j] with idx := some s } := by
+  induction placement generalizing ress with
+  | nil => simp [cuPlacedOf]
+  | cons l ls ih =>
+    cases ress with
+    | nil => simp [cuPlacedOf]
+    | cons r rs =>
+      have ih' := ih rs
+      constructor
+      · intro h
+        cases r with
+        | placed s0 =>
+          simp only [cuPlacedOf, List.zip_cons_cons, List.filterMap_cons, List.mem_cons] at h
+          rcases h with h | h
+          · exact ⟨0, by simp, by simp, s0, by simp, h⟩
+          · obtain ⟨j, hj, hj', s, hr, hy⟩ := ih'.mp (by simpa [cuPlacedOf] using h)
+            exact ⟨j + 1, by simpa using hj, by simpa using hj', s, by simpa using hr, by simpa using hy⟩
+        | skipped =>
+          simp only [cuPlacedOf, List.zip_cons_cons, List.filterMap_cons] at h
+          obtain ⟨j, hj, hj', s, hr, hy⟩ := ih'.mp (by simpa [cuPlacedOf] using h)
+          exact ⟨j + 1, by simpa using hj, by simpa using hj', s, by simpa using hr, by simpa using hy⟩
+      · rintro ⟨j, hj, hj', s, hr, hy⟩
+        cases j with
+        | zero =>
+          simp only [List.getElem_cons_zero] at hr hy
+          subst hr
+          simp [cuPlacedOf, hy]
+        | succ j =>
+          have hrec : y ∈ cuPlacedOf ls rs :=
+            ih'.mpr ⟨j, by simpa using hj, by simpa using hj', s, by simpa using hr, by simpa using hy⟩
+          cases r with
+          | placed s0 =>
+            simp only [cuPlacedOf, List.zip_cons_cons, List.filterMap_cons, List.mem_cons]
+            exact .inr (by simpa [cuPlacedOf] using hrec)
+          | skipped =>
+            simp only [cuPlacedOf, List.zip_cons_cons, List.filterMap_cons]
+            simpa [cuPlacedOf] using hrec
+
+/-- a list in which `x` is the only element satisfying `p`: searching it from the back finds `x` -/
+theorem reverse_find_unique {α} (l : List α) (p : α → Bool) (x : α) (hx : x ∈ l) (hp : p x = true)
+    (hu : ∀ y ∈ l, p y = true → y = x) : l.reverse.find? p = some x := by
+  cases hf : l.reverse.find? p with
+  | none =>
+    have := List.find?_eq_none.mp hf x (List.mem_reverse.mpr hx)
+    simp [hp] at this
+  | some y =>
+    have hy : y ∈ l := List.mem_reverse.mp (List.mem_of_find?_eq_some hf)
+    rw [hu y hy (List.find?_some hf)]
+
+/-- **a new unit-property set is referred to by the slot the save put it on**: in the unit-property rebuild
+(`uprpCore`), if the allocator placed the `k`-th element of the placement — a set that carried no index and whose
+values no stored slot holds (exactly the index-less sets the rebuild asks slots for) — on slot `s`, then with the
+emitted table as the encode context a reference to that set is written as `s`, and the emitted table contains that
+set with index `s` (which, by `c11_emitted_slot_holds_its_cuwp`, is what slot `s` resolves to).  The batch holds
+every value at most once (`hkeys`; `dedupBy_keys_nodup` and `c04_need_keys_nodup` discharge it for the rebuild). -/
+theorem c04_new_cuwp_reference_is_its_slot (table need : List RCuwp) (ress : List Res)
+    (hkeys : ((cuPlacementOf need).map (·.key)).Nodup)
+    (k : Nat) (hk : k < (cuPlacementOf need).length) (hk' : k < ress.length) (s : Nat) (hp : ress[k] = .placed s)
+    (hnone : (cuPlacementOf need)[k].idx = none)
+    (hnew : ∀ t ∈ table, t.key ≠ (cuPlacementOf need)[k].key)
+    (ctx : EncCtx) (hctx : ctx.cuwps = table ++ cuPlacedOf (cuPlacementOf need) ress) :
+    cuwpId ctx (cuPlacementOf need)[k] = some s ∧
+    ({ (cuPlacementOf need)[k] with idx := some s } : RCuwp) ∈ ctx.cuwps := by
+  have hmem : ({ (cuPlacementOf need)[k] with idx := some s } : RCuwp) ∈ cuPlacedOf (cuPlacementOf need) ress :=
+    (cu_placed_mem_iff _ _ _).mpr ⟨k, hk, hk', s, hp, rfl⟩
+  refine ⟨?_, by rw [hctx]; exact List.mem_append_right _ hmem⟩
+  have hown : cuwpOwn ctx (cuPlacementOf need)[k] = none := by simp [cuwpOwn, hnone]
+  unfold cuwpId
+  rw [hown, hctx]
+  simp only [Option.orElse_none]
+  rw [reverse_find_unique (table ++ cuPlacedOf (cuPlacementOf need) ress) _
+    ({ (cuPlacementOf need)[k] with idx := some s } : RCuwp) (List.mem_append_right _ hmem) (by simp [RCuwp.key])]
+  · rfl
+  · intro y hy hkey
+    have hkey' : y.key = (cuPlacementOf need)[k].key := by simpa using hkey
+    rcases List.mem_append.mp hy with hy | hy
+    · exact absurd hkey' (hnew y hy)
+    · obtain ⟨j, hj, hj', sj, hr, hyj⟩ := (cu_placed_mem_iff _ _ _).mp hy
+      have hkj : (cuPlacementOf need)[j].key = (cuPlacementOf need)[k].key := by
+        rw [← hkey', hyj]; rfl
+      have hjk : j = k := by
+        have h1 : ((cuPlacementOf need).map (·.key))[j]'(by simpa using hj) = ((cuPlacementOf need).map (·.key))[k]'(by simpa using hk) := by
+          simpa using hkj
+        exact (List.getElem_inj hkeys).mp h1
+      subst hjk
+      rw [hp] at hr
+      cases hr
+      exact hyj
+
+/-- the sets the rebuild asks slots for hold every value at most once, whatever iteration order the set of found
+objects has (`hperm`: the order is a permutation of the collected batch) -/
+theorem c04_need_keys_nodup (found table : List RCuwp) (o : Option (List Nat))
+    (hperm : (allocOrder o (dedupBy (fun a b : RCuwp => a.key == b.key) found)).Perm
+      (dedupBy (fun a b : RCuwp => a.key == b.key) found)) :
+    ((cuPlacementOf ((allocOrder o (dedupBy (fun a b : RCuwp => a.key == b.key) found)).filter
+      fun c => c.idx.isSome || !(table.any fun t => t.key == c.key))).map (·.key)).Nodup := by
+  have h0 := dedupBy_keys_nodup found
+  have h1 : ((allocOrder o (dedupBy (fun a b : RCuwp => a.key == b.key) found)).map (·.key)).Nodup :=
+    (hperm.map _).nodup_iff.mpr h0
+  have h2 := h1.sublist ((List.filter_sublist (l := allocOrder o (dedupBy (fun a b : RCuwp => a.key == b.key) found))
+    (p := fun c => c.idx.isSome || !(table.any fun t => t.key == c.key))).map (·.key))
+  exact ((cuPlacementOf_perm _).map _).nodup_iff.mpr h2
+
+/-- an index-less set the rebuild asks a slot for has values no stored slot holds -/
+theorem c04_need_indexless_is_new (batch table : List RCuwp) (c : RCuwp)
+    (hc : c ∈ cuPlacementOf (batch.filter fun c => c.idx.isSome || !(table.any fun t => t.key == c.key)))
+    (hnone : c.idx = none) : ∀ t ∈ table, t.key ≠ c.key := by
+  have hc' := (cuPlacementOf_perm _).subset hc
+  have hf := (List.mem_filter.mp hc').2
+  simp only [hnone, Option.isSome_none, Bool.false_or, Bool.not_eq_eq_eq_not, Bool.not_true] at hf
+  intro t ht hk
+  have := List.any_eq_false.mp hf t ht
+  simp [hk] at this
+
+/-- with a raising allocator (`raiseWhenFull`; unit-property sets, sounds, switches), a run that succeeds has placed
+every request that asked for a fresh slot -/
+theorem allocRun_fresh_placed {cfg : AllocCfg} (hr : cfg.raiseWhenFull = true) :
+    ∀ (reqs : List Req) (st : AllocSt) {ress : List Res} {st' : AllocSt}, allocRun cfg st reqs = .ok (ress, st') →
+      ∀ (k : Nat) (hk : k < reqs.length) (hk' : k < ress.length), reqs[k] = .fresh → ∃ s, ress[k] = .placed s := by
+  intro reqs
+  induction reqs with
+  | nil => intro st ress st' _ k hk; simp at hk
+  | cons r rs ih =>
+    intro st ress st' h k hk hk' hf
+    simp only [allocRun] at h
+    cases hs : allocStep cfg st r with
+    | error e => simp [hs] at h
+    | ok p =>
+      obtain ⟨res, st1⟩ := p
+      cases hrr : allocRun cfg st1 rs with
+      | error e => simp [hs, hrr] at h
+      | ok q =>
+        obtain ⟨ress', st2⟩ := q
+        simp only [hs, hrr, Except.ok.injEq, Prod.mk.injEq] at h
+        obtain ⟨h1, _⟩ := h
+        subst h1
+        cases k with
+        | zero =>
+          simp only [List.getElem_cons_zero] at hf ⊢
+          subst hf
+          simp only [allocStep] at hs
+          cases hfree : st.free with
+          | nil => simp [hfree, hr] at hs
+          | cons f fs =>
+            simp only [hfree, Except.ok.injEq, Prod.mk.injEq] at hs
+            exact ⟨f, hs.1.symm⟩
+        | succ k =>
+          simp only [List.getElem_cons_succ] at hf ⊢
+          exact ih st1 hrr k (by simpa using hk) (by simpa using hk') hf
+
+theorem carriedFirst_placement_generic {α} (idx : α → Option Nat) (b : List α) :
+    carriedFirst ((b.filter (fun x => (idx x).isSome) ++ b.filter (fun x => (idx x).isNone)).map
+        fun l => match idx l with | some i => Req.carry i | none => Req.fresh) =
+      (b.filter (fun x => (idx x).isSome) ++ b.filter (fun x => (idx x).isNone)).map
+        fun l => match idx l with | some i => Req.carry i | none => Req.fresh := by
+  have hs : ∀ (l : List α), (∀ x ∈ l, (idx x).isSome = true) →
+      carriedIdx (l.map fun l => match idx l with | some i => Req.carry i | none => Req.fresh) = l.filterMap idx ∧
+      freshCount (l.map fun l => match idx l with | some i => Req.carry i | none => Req.fresh) = 0 ∧
+      (l.map fun l => match idx l with | some i => Req.carry i | none => Req.fresh) = (l.filterMap idx).map Req.carry := by
+    intro l
+    induction l with
+    | nil => intro _; simp [carriedIdx, freshCount]
+    | cons x xs ih =>
+      intro hall
+      obtain ⟨h1, h2, h3⟩ := ih (fun y hy => hall y (List.mem_cons_of_mem _ hy))
+      have hx := hall x (by simp)
+      cases hxi : idx x with
+      | none => rw [hxi] at hx; simp at hx
+      | some i => exact ⟨by simp [carriedIdx, hxi, h1], by simp [freshCount, hxi, h2], by simp [hxi, h3]⟩
+  have hn : ∀ (l : List α), (∀ x ∈ l, (idx x).isNone = true) →
+      carriedIdx (l.map fun l => match idx l with | some i => Req.carry i | none => Req.fresh) = [] ∧
+      freshCount (l.map fun l => match idx l with | some i => Req.carry i | none => Req.fresh) = l.length ∧
+      (l.map fun l => match idx l with | some i => Req.carry i | none => Req.fresh) = List.replicate l.length Req.fresh := by
+    intro l
+    induction l with
+    | nil => intro _; simp [carriedIdx, freshCount]
+    | cons x xs ih =>
+      intro hall
+      obtain ⟨h1, h2, h3⟩ := ih (fun y hy => hall y (List.mem_cons_of_mem _ hy))
+      have hx := hall x (by simp)
+      cases hxi : idx x with
+      | some i => rw [hxi] at hx; simp at hx
+      | none => exact ⟨by simp [carriedIdx, hxi, h1], by simp [freshCount, hxi, h2], by simp [hxi, h3, List.replicate_succ]⟩
+  obtain ⟨a1, a2, a3⟩ := hs (b.filter (fun x => (idx x).isSome)) (fun x hx => by simpa using (List.mem_filter.mp hx).2)
+  obtain ⟨b1, b2, b3⟩ := hn (b.filter (fun x => (idx x).isNone)) (fun x hx => by simpa using (List.mem_filter.mp hx).2)
+  unfold carriedFirst
+  rw [List.map_append, carriedIdx_append, freshCount_append, a1, a2, b1, b2, a3, b3]
+  simp
+
+theorem carriedFirst_cuReqsOf (need : List RCuwp) : carriedFirst (cuReqsOf need) = cuReqsOf need :=
+  carriedFirst_placement_generic (fun c : RCuwp => c.idx) need
+
+/-- **C04, end to end for a new unit-property set**: whenever the unit-property rebuild succeeds (`uprpCore … = .ok
+cuwps`, allocator raising when full as the generated configuration says), EVERY set of the batch that carried no
+index and whose values no stored slot holds has been given a slot `s`; with the emitted table as the encode context
+a reference to it is written as `s`, and the emitted table holds exactly that set, with index `s`.  For every
+stored table, every batch holding each value once, every iteration order. -/
+theorem c04_new_cuwp_is_placed_and_referred_by_its_slot (cfg : RichCfg) (hr : cfg.uprpCfg.raiseWhenFull = true)
+    (table need cuwps : List RCuwp) (h : uprpCore cfg table need = .ok cuwps)
+    (hkeys : ((cuPlacementOf need).map (·.key)).Nodup)
+    (k : Nat) (hk : k < (cuPlacementOf need).length) (hnone : (cuPlacementOf need)[k].idx = none)
+    (hnew : ∀ t ∈ table, t.key ≠ (cuPlacementOf need)[k].key)
+    (ctx : EncCtx) (hctx : ctx.cuwps = cuwps) :
+    ∃ s, cuwpId ctx (cuPlacementOf need)[k] = some s ∧
+      ({ (cuPlacementOf need)[k] with idx := some s } : RCuwp) ∈ cuwps := by
+  unfold uprpCore at h
+  cases ha : allocate cfg.uprpCfg (table.filterMap (·.idx)) (cuReqsOf need) with
+  | error e => simp [ha] at h
+  | ok p =>
+    obtain ⟨ress, st⟩ := p
+    simp only [ha, Except.ok.injEq] at h
+    have hrun : allocRun cfg.uprpCfg ⟨table.filterMap (·.idx), freeIds cfg.uprpCfg (table.filterMap (·.idx))⟩ (cuReqsOf need) = .ok (ress, st) := by
+      have := ha
+      unfold allocate at this
+      rwa [carriedFirst_cuReqsOf] at this
+    have hlen : ress.length = (cuReqsOf need).length := allocRun_length _ _ hrun
+    have hk1 : k < (cuReqsOf need).length := by simpa [cuReqsOf] using hk
+    have hk' : k < ress.length := by omega
+    obtain ⟨s, hs⟩ := allocRun_fresh_placed hr _ _ hrun k hk1 hk' (by simp [cuReqsOf, hnone])
+    have := c04_new_cuwp_reference_is_its_slot table need ress hkeys k hk hk' s hs hnone hnew ctx (by rw [hctx, ← h])
+    exact ⟨s, this.1, by rw [← hctx]; exact this.2⟩
+
+/-- the premise `raiseWhenFull` holds for the specification's unit-property slot range, which the regenerated
+constants are proved equal to in `Props/C09.lean` (`c09_generated_consts_eq_spec`) -/
+example : Spec.cuwpSlots.raiseWhenFull = true := by decide
+
 
 end Richchk.Props.C14
